@@ -8,6 +8,10 @@ Driver for the Column model (C30), instantiated with the concrete policy of the 
   spec <ops> <obs>;…      -> ok | viol <k>        S (reference map) on *given* observations
 
   ops := op(;op)*   op := s<row>.<key>.<val> | r<row>.<key> | c<row> | O
+                          | q<row>.<key>.<val>            quiet set: executed, no observation
+                          | F<start>.<count>.<key>.<kind>.<off>   quiet sets of a run of rows (see fillVal?)
+                          | P<row>                        probe: observation of <row>, nothing executed
+  (observations are numbered over the non-quiet items only)
   val := i<int> | f<bits> | s<tag> | b0 | b1 | n | o<tag>
   obs := <gets>|<keys>|<lens>|<dense>
      gets  := val(,val)*                 get_property for the probed cells
@@ -24,6 +28,8 @@ open SgModel SgModel.Driver SgModel.Column
 inductive Item where
   | op (o : Op)
   | sweep
+  | quiet (o : Op)       -- executed, not observed
+  | probe (row : Nat)    -- observed like an op on `row`, nothing executed
 
 def parseVal? (s : String) : Option PV :=
   match s.toList with
@@ -44,9 +50,30 @@ def showVal : PV → String
   | .null => "n"
   | .other t => s!"o{t}"
 
+/-- value `x` of a fill: kind 0 = int (x-3), 2 = str (x mod 50), 3 = bool (x even), 4 = int (3x-7) -/
+def fillVal? (kind x : Nat) : Option PV :=
+  if kind == 0 then some (.int (Int.ofNat x - 3))
+  else if kind == 2 then some (.str (x % 50))
+  else if kind == 3 then some (.bool (x % 2 == 0))
+  else if kind == 4 then some (.int (3 * Int.ofNat x - 7))
+  else none
+
+/-- `F<start>.<count>.<key>.<kind>.<off>` = quiet sets of rows start..start+count-1, value index off+j -/
+def parseFill? (s : String) : Option (List Item) :=
+  match s.splitOn "." with
+  | [a, n, k, kd, off] => do
+      let a ← a.toNat?; let n ← n.toNat?; let k ← k.toNat?; let kd ← kd.toNat?; let off ← off.toNat?
+      (List.range n).mapM (fun j => (fillVal? kd (off + j)).map (fun v => Item.quiet (.set (a + j) k v)))
+  | _ => none
+
 def parseItem? (s : String) : Option Item :=
   match s.toList with
   | ['O'] => some .sweep
+  | 'P' :: rest => (String.ofList rest).toNat?.map .probe
+  | 'q' :: rest =>
+      match (String.ofList rest).splitOn "." with
+      | [r, k, v] => do pure (.quiet (.set (← r.toNat?) (← k.toNat?) (← parseVal? v)))
+      | _ => none
   | 's' :: rest =>
       match (String.ofList rest).splitOn "." with
       | [r, k, v] => do pure (.op (.set (← r.toNat?) (← k.toNat?) (← parseVal? v)))
@@ -58,7 +85,11 @@ def parseItem? (s : String) : Option Item :=
   | 'c' :: rest => (String.ofList rest).toNat?.map (fun r => .op (.clearRow r))
   | _ => none
 
-def parseItems? (s : String) : Option (List Item) := (s.splitOn ";").mapM parseItem?
+def parseItems? (s : String) : Option (List Item) :=
+  ((s.splitOn ";").mapM (fun (t : String) =>
+    match t.toList with
+    | 'F' :: rest => parseFill? (String.ofList rest)
+    | _ => (parseItem? t).map (fun i => [i]))).map List.flatten
 
 def dedupKeep (l : List Nat) : List Nat :=
   (l.foldl (fun (acc : List Nat) x => if acc.contains x then acc else x :: acc) []).reverse
@@ -69,16 +100,28 @@ def opRow : Op → Nat
   | .set r _ _ => r | .remove r _ => r | .clearRow r => r
 
 def caseKeys (items : List Item) : List Nat :=
-  dedupKeep (items.filterMap (fun it => match it with | .op o => opKey o | .sweep => none))
+  dedupKeep (items.filterMap (fun it => match it with
+    | .op o => opKey o | .quiet o => opKey o | .sweep => none | .probe _ => none))
+/-- rows for the full sweeps (only computed when the case has one) -/
 def caseRows (items : List Item) : List Nat :=
-  dedupKeep (items.filterMap (fun it => match it with | .op o => some (opRow o) | .sweep => none))
+  if items.any (fun it => match it with | .sweep => true | _ => false) then
+    dedupKeep (items.filterMap (fun it => match it with
+      | .op o => some (opRow o) | .quiet o => some (opRow o) | .sweep => none | .probe _ => none))
+  else []
+
+def rowProbes (keys : List Nat) (r : Nat) : Probes :=
+  let rs := (if r = 0 then [] else [r - 1]) ++ [r, r + 1]
+  { cells := rs.flatMap (fun r => keys.map (fun k => (r, k))), rows := [r], allKeys := keys }
 
 def probesFor (keys rows : List Nat) : Item → Probes
   | .sweep => { cells := rows.flatMap (fun r => keys.map (fun k => (r, k))), rows := rows, allKeys := keys }
-  | .op o =>
-      let r := opRow o
-      let rs := (if r = 0 then [] else [r - 1]) ++ [r, r + 1]
-      { cells := rs.flatMap (fun r => keys.map (fun k => (r, k))), rows := [r], allKeys := keys }
+  | .op o => rowProbes keys (opRow o)
+  | .quiet o => rowProbes keys (opRow o)
+  | .probe r => rowProbes keys r
+
+def isQuiet : Item → Bool
+  | .quiet _ => true
+  | _ => false
 
 def showKeys (ks : List Nat) : String :=
   if ks.isEmpty then "-" else joinWith "." (ks.map toString)
@@ -93,8 +136,13 @@ def runCase (items : List Item) : List String :=
   let keys := caseKeys items
   let rows := caseRows items
   (items.foldl (fun (acc : Store × List String) it =>
-      let s' := match it with | .op o => Store.step rustPolicy acc.1 o | .sweep => acc.1
-      (s', showObs s' keys (Store.obs s' (probesFor keys rows it)) :: acc.2)) ([], [])).2.reverse
+      let s' := match it with
+        | .op o => Store.step rustPolicy acc.1 o
+        | .quiet o => Store.step rustPolicy acc.1 o
+        | .sweep => acc.1
+        | .probe _ => acc.1
+      if isQuiet it then (s', acc.2)
+      else (s', showObs s' keys (Store.obs s' (probesFor keys rows it)) :: acc.2)) ([], [])).2.reverse
 
 def parseObs? (s : String) : Option Obs :=
   match s.splitOn "|" with
@@ -109,8 +157,9 @@ def firstViolation (items : List Item) (os : List Obs) : Option Nat :=
   let keys := caseKeys items
   let rows := caseRows items
   let rec go (k : Nat) (m : RefMap) : List Item → List Obs → Option Nat
+    | .quiet op :: its, os => go k (RefMap.step m op) its os
     | it :: its, o :: os =>
-        let m' := match it with | .op op => RefMap.step m op | .sweep => m
+        let m' := match it with | .op op => RefMap.step m op | _ => m
         if specObs m' (probesFor keys rows it) o then go (k + 1) m' its os else some k
     | _, _ => none
   go 0 [] items os
@@ -122,7 +171,7 @@ def handle (_ : Unit) (line : String) : Unit × String :=
       | none => ((), "bad-op")
   | ["spec", ops, os] => match parseItems? ops, (os.splitOn ";").mapM parseObs? with
       | some l, some o =>
-          if l.length != o.length then ((), "bad-op")
+          if (l.filter (fun it => !isQuiet it)).length != o.length then ((), "bad-op")
           else match firstViolation l o with
             | none => ((), "ok")
             | some k => ((), s!"viol {k}")
